@@ -153,6 +153,19 @@ IterFirst(r) == IterFirstOK(r) /\ IterDo(r)
 IterNextOK(cur, r) == Live(cur) /\ conn[cur].app > 0 /\ (r = 0 \/ (Live(r) /\ r # cur))
 IterNext(cur, r) == IterNextOK(cur, r) /\ IterDo(r)
 
+(* the service's own statistics (qb_ipcs_stats_get), read from the application's main loop -- beyond C04 (check X03):
+   active_connections is the number of connections that are established (created returned, not disconnected: a
+   disconnect of an established connection invokes closed before it returns, so in the main loop "established" is a
+   phase); closed_connections counts every connection that was disconnected after its set-up had succeeded: at least
+   those whose closed callback ran, at most those plus the ones that were dropped after a successful accept
+   (disconnected inside connection_created, or the answer to the client could not be written -- the events do not
+   tell a set-up that failed before the connection was counted from one that failed after) *)
+NEstablished == Cardinality({c \in Ids : conn[c].ph = PEstablished})
+NClosedMin == Cardinality({c \in Ids : conn[c].ncl > 0})
+NClosedMax == Cardinality({c \in Ids : conn[c].ncl > 0 \/ (conn[c].aret = 0 /\ conn[c].ph \in {PDropped, PDestroyed})})
+SvcStatsOK(active, closed) == stack = <<>> /\ active = NEstablished /\ closed >= NClosedMin /\ closed <= NClosedMax
+SvcStats(active, closed) == SvcStatsOK(active, closed) /\ UNCHANGED vars
+
 SvcRef == svcApp' = svcApp + 1 /\ UNCHANGED <<conn, stack, svcD>>
 SvcUnref == svcApp > 0 /\ svcApp' = svcApp - 1 /\ UNCHANGED <<conn, stack, svcD>>
 RateLimit == UNCHANGED vars
